@@ -272,6 +272,25 @@ def run_on(fb, chk, tag=""):
                           "frontend side) event source of a stopped ring" % f.short, f.loc(t["line"]))
                 continue
             ok = bool(ups) and cfg.all_paths_pass_through(cfg.succ[bb][0] if cfg.succ[bb] else bb, cfg.returns, set(ups))
+            if not ok and ups:
+                # the control-flow graph alone may contain paths that no execution takes (a helper reporting "did it" in a flag
+                # that the caller tests afterwards): decide on the feasible paths — those whose branch conditions do not
+                # contradict each other
+                try:
+                    from vlint import paths as _paths
+                    outs_, _s = _paths.Summariser(fb, no_inline=lambda g: True).paths(f)
+                    seen_ = 0
+                    good_ = True
+                    for o_ in outs_:
+                        if o_.cut or o_.ret is None or bb not in o_.path:
+                            continue
+                        seen_ += 1
+                        k_ = o_.path.index(bb)
+                        if not any(u_ in o_.path[k_ + 1:] for u_ in ups):
+                            good_ = False
+                    ok = good_ and seen_ > 0
+                except Exception:
+                    ok = False
             chk.check(ok, "T2", key, "followed by the registration update for the same ring on every path",
                       "%s changes %s (%s) and can return without updating the ring's epoll registration: the worker keeps polling the old "
                       "descriptor set (a kick on a newly installed descriptor of a started ring is never dispatched)"
